@@ -688,6 +688,12 @@ def run(cs, log, ctx):
         w = World(cs, log, ctx)
         os.chdir(str(w.root))
         with cs.span("config"):
+            import time as _time
+            tz = cs.choice("TZ", ["UTC", "Australia/Sydney", "America/New_York",
+                                  "Asia/Kolkata"])
+            os.environ["TZ"] = tz          # this run's process only (forked)
+            _time.tzset()
+            log.ev("TZ", tz)
             nsteps = cs.between("nsteps", 3, 25)
             enabled = {k: not cs.flip("off." + k, 15) for k, _ in OPS}
             enabled["write"] = True
